@@ -302,7 +302,7 @@ SUBS = [
     Sub(name='enum-face-specials', kind='enum', run=run_wrap, size=special_size, case_at=special_case, exhaustive=True,
         rule='complete enumeration: every ordered pair of the face-special coordinates (0, 1, -1e-17, 1e-17, 1-1e-16, 1-2^-53, +-2^-60, 0.5, k/n, each also shifted by -2, -1, 1, 3 cells) as consecutive frames of one atom in a triclinic cell',
         shards={'quick': 16, 'thorough': 16}),
-    Sub(name='long-trajectories', kind='hyp', run=run_long, strategy=long_cases,
+    Sub(name='long-trajectories', kind='hyp', shrink=False, run=run_long, strategy=long_cases,
         rule='1 000 - 140 000 (300 000) frames (every power of two from 2^10 to 2^16 (2^17) and its neighbours, round numbers, arbitrary lengths) x 1-3 atoms in all lattices, drift + oscillation + one hop with hundreds of face crossings, given wrapped / unwrapped / shifted by other lattice vectors in every frame / as displacements: positions, per-step displacements, running sum, cumulative displacements, distances and a late slice checked at every frame in a generated order of queries (size-dependent code paths)',
         n={'quick': 4, 'thorough': 20}, shards={'quick': 8, 'thorough': 16}),
     Sub(name='api-histories', kind='machine', run=lambda case: __import__('pbt.props.c15', fromlist=['run_log']).run_log(case),
